@@ -123,7 +123,12 @@ def force_split(S, r, tier):
             cuts = [min(cuts + [T / 2]) / 1000.0] + cuts
         if r.random() < 0.1 and cuts:
             cuts = sorted(cuts + [cuts[0]])      # the same horizon asked twice
-        S["plan"] = [["time", c] for c in cuts] + [["time", T]]
+        S["plan"] = []
+        for c in cuts:
+            S["plan"].append(["time", c])
+            if r.random() < 0.3:
+                S["plan"].append(["spawn"])      # another Simulation is built from the same Network while this one is paused
+        S["plan"].append(["time", T])
     return S
 
 
